@@ -16,8 +16,8 @@ package main
 //
 // A difference is classified by the kind of the output units (diagnostic +
 // its source/explanation lines) that differ, which gives the narrow key
-// C07/nondeterministic/<order|content|exit|stderr|tree>/<message kind> or
-// C07/inprocess-history/<message kind>.
+// C07/nondeterministic/<message kind> (or .../stderr/<kind>, .../exit/..., .../tree/...)
+// or C07/inprocess-history/<message kind>.
 //
 // The static tie (gen/c07.go, audit/maprange.json) runs in bin/check's proof
 // stage; this file only reports the audit's numbers in the evidence.
@@ -292,9 +292,10 @@ func c07Seq(ctx *Ctx, name string, steps []c07Case) ([]c07Out, error) {
 // ---------- classification of a difference ----------
 
 var (
-	c07ReExpr  = regexp.MustCompile(`\$[\{\(][^}\)]*[\}\)]`)
-	c07RePath  = regexp.MustCompile(`[^\s"]*/[^\s"]*`)
-	c07ReTrace = regexp.MustCompile(`^TRACE: [0-9 ]*[+-]? *`)
+	c07ReExpr    = regexp.MustCompile(`\$[\{\(][^}\)]*[\}\)]`)
+	c07RePath    = regexp.MustCompile(`[^\s"]*/[^\s"]*`)
+	c07ReTrace   = regexp.MustCompile(`^TRACE: [0-9 ]*[+-]? *`)
+	c07ReSummary = regexp.MustCompile(`^text: (_ errors?)?(, | and )?(_ warnings?)?( and )?(_ notes?)? found\.$`)
 )
 
 func c07Norm(msg string) string {
@@ -383,6 +384,21 @@ func c07DiffKinds(a, b string) (string, []string) {
 			}
 		}
 	}
+	// the summary line is a function of the number of diagnostic lines: when the multisets of
+	// diagnostics differ, a different summary is a consequence, not a difference of its own
+	diagContent := false
+	for k := range kinds {
+		if what == "content" && !strings.HasPrefix(k, "text: ") {
+			diagContent = true
+		}
+	}
+	if diagContent {
+		for k := range kinds {
+			if strings.HasPrefix(k, "text: ") && c07ReSummary.MatchString(k) {
+				delete(kinds, k)
+			}
+		}
+	}
 	ks := sortedKeys(kinds)
 	if len(ks) > 6 {
 		ks = ks[:6]
@@ -391,6 +407,19 @@ func c07DiffKinds(a, b string) (string, []string) {
 }
 
 type c07Diff struct{ what, kind string }
+
+// key: the message kind alone. Whether the same cause shows as a reordering or
+// as different content depends on what else the run printed (a package checked
+// twice turns a content difference into a swap), so `what` is not part of the key.
+func (d c07Diff) key() string {
+	switch {
+	case strings.HasPrefix(d.what, "stderr-"):
+		return "stderr/" + d.kind
+	case d.what == "order" || d.what == "content":
+		return d.kind
+	}
+	return d.what + "/" + d.kind
+}
 
 func c07Compare(a, b c07Out) []c07Diff {
 	var ds []c07Diff
@@ -479,7 +508,7 @@ type c07Params struct {
 
 func runC07(ctx *Ctx) *Result {
 	res := &Result{}
-	p := c07Params{trees: 48, casesPerTree: 3, nFresh: 5, nSeq: 3, batch: 6}
+	p := c07Params{trees: 120, casesPerTree: 3, nFresh: 6, nSeq: 3, batch: 6}
 	if ctx.Tier == "thorough" {
 		p = c07Params{trees: 600, casesPerTree: 4, nFresh: 10, nSeq: 5, batch: 6}
 	}
@@ -679,7 +708,7 @@ func c07ReportNondet(ctx *Ctx, res *Result, c c07Case, a, b c07Out, how string) 
 	files := c07TreeFiles(c.Root)
 	for _, d := range ds {
 		res.AddViolation(Violation{
-			Key:        "C07/nondeterministic/" + d.what + "/" + d.kind,
+			Key:        "C07/nondeterministic/" + d.key(),
 			What:       fmt.Sprintf("two runs of `pkglint %s` (cwd %s) on the same tree in %s differ: %s", strings.Join(c.Args, " "), c.Cwd, how, c07Where(a, b)),
 			FoundInput: true,
 			Size:       len(a.Stdout) + len(files),
@@ -749,7 +778,7 @@ func c07ReportInProcess(ctx *Ctx, res *Result, cases []c07Case, steps []int, got
 		// seen once, never again: still an observed difference of the real code (in-process), report it as such
 		for _, d := range ds {
 			res.AddViolation(Violation{
-				Key:        "C07/inprocess-unstable/" + d.what + "/" + d.kind,
+				Key:        "C07/inprocess-unstable/" + d.key(),
 				What:       fmt.Sprintf("an in-process run of `pkglint %s` after %d other runs differed once from the fresh-process output and could not be repeated: %s", strings.Join(target.Args, " "), len(steps)-1, c07Where(want, got)),
 				FoundInput: false,
 				Replay:     map[string]any{"broken": "in-process run = fresh run (not reproducible)", "kind": "inprocess-once", "args": target.Args, "cwd": target.Cwd},
@@ -774,7 +803,7 @@ func c07ReportInProcess(ctx *Ctx, res *Result, cases []c07Case, steps []int, got
 	}
 	for _, d := range ds {
 		res.AddViolation(Violation{
-			Key: "C07/inprocess-history/" + d.what + "/" + d.kind,
+			Key: "C07/inprocess-history/" + d.key(),
 			What: fmt.Sprintf("`pkglint %s` gives a different result after %d earlier run(s) in the same process (fresh G each) than in a fresh process: %s",
 				strings.Join(target.Args, " "), len(best)-1, c07Where(want, got)),
 			FoundInput: true,
